@@ -10,6 +10,8 @@
    (CStr cells) makes lasio raise TypeError (`fmt % text`) whenever the refresh is needed, and
    skip the refresh when STOP holds the very text of the last cell; neither is modelled
    (fmt_index_cell returns the text, the STOP comparison says "different").
+   The index format prints a float literal (float(fmt % x) succeeds; when it does not, lasio
+   compares STOP with the unprinted last cell instead: not modelled).
    `fmt % nan` is taken to be "nan": true of the float conversions (%f %e %g, any precision)
    without width, sign or space flag; an integer conversion (%d) makes lasio raise ValueError
    on a NaN index cell, which is not modelled either.
@@ -312,10 +314,13 @@ Definition refresh_sss (f : list N) (m : mlas) : option las :=
             match item_value_by trw (s2l "STOP") (s_items well) with
             | None => None                                  (* las.well.STOP: AttributeError *)
             | Some sv =>
+                (* float(index_fmt % index_initial[-1]) != STOP.value: STOP is compared with
+                   the value the index column PRINTS for its last cell (f = its format), so
+                   that a format that loses digits triggers the refresh on the first write *)
                 let stop_diff :=
                   match lastc, sv with
-                  | CNum t, VInt z => negb (numeq t (z_to_str z))
-                  | CNum t, VFloat x => negb (numeq t x)
+                  | CNum t, VInt z => negb (numeq (fmtv f t) (z_to_str z))
+                  | CNum t, VFloat x => negb (numeq (fmtv f t) x)
                   | _, _ => true
                   end in
                 Some (negb (cells_equal ii index) || stop_diff)
